@@ -311,7 +311,10 @@ def _rejects_nonfinite(fn) -> bool:
             gs = guards(fn, r, pm)
             for t, tr in gs:
                 s = src(t)
-                if tr and ("isfinite" in s and s.count("not") % 2 == 1 or "isinf" in s or "isnan" in s) and "not math.isinf" not in s:
+                # the closed guard set carries the atoms in positive form: `isfinite(n)` known false, or `isinf(n)` / `isnan(n)` known true
+                atom = isinstance(t, ast.Call) and call_name(t) in ("isfinite", "isinf", "isnan")
+                if (atom and ((call_name(t) == "isfinite" and not tr) or (call_name(t) in ("isinf", "isnan") and tr))) or (
+                        not atom and tr and ("isfinite" in s and s.count("not") % 2 == 1 or "isinf" in s or "isnan" in s) and "not math.isinf" not in s):
                     # must come before any return
                     rets = [x for x in walk_no_nested(fn) if isinstance(x, ast.Return)]
                     return all(ordk(x) > ordk(r) for x in rets)
